@@ -80,7 +80,8 @@ theorem C17_data_never_matches_end (M : Machine) (o : SemOpts) (s : Nat) (a : Ar
     (hfall : a.fall = false) (hacts : a.acts = .nil) (hacc : M.isAccepting a.target = false)
     (hne : ((M.st s).accepting && a.err) = false) :
     M.call o s symEnd =
-      .leaf (.ret (if (M.st s).accepting then "DONE" else "FAIL") (if a.target ≥ 0 then a.target else s) 0) := by
+      (if (M.st s).accepting then .leaf (.ret "DONE" (if a.target ≥ 0 then a.target else s) 0)
+       else .leaf (.ret "FAIL" M.failTarget 0)) := by
   have h2 : ¬ M.states.size ≤ s := by omega
   have h1 : ¬ ((s : Int) < 0) := by omega
   simp [Machine.call, Machine.stepFuel, Machine.dispatch, h1, h2, hk, harm, Machine.armTree,
